@@ -502,6 +502,7 @@ def c02(rep, tier):
     dangling_rule(rep, M, lib)
     recursion_depth_rule(rep)
     unwritten_token_rule(rep, M, lib)
+    uninitialised_locals_rule(rep, M, lib)
     # the generator reports errors at its current position; before the first visible node it is the initial one
     genf2 = lib.fn('Theo::gen')
     for e in walk_all_exprs(genf2['body']):
@@ -531,6 +532,27 @@ def c02(rep, tier):
                 else:
                     F.check(okm and okl, inst, 'message has literal text; location from %s' % why,
                             'malformed error record: %s' % ('empty message' if not okm else why), where)
+
+
+def uninitialised_locals_rule(rep, M, lib):
+    """definite assignment of scalar locals declared without an initialiser (every function of the library except the generated scanner)"""
+    from .genrules import uninitialised_reads
+    Q = rep.rule('C02.q', 'a scalar local that is declared without an initialiser is assigned on every path before it is read', floor=1)
+    nf = nv = 0
+    for f in lib.functions:
+        if f.get('body') is None or f['tmpl'] == 'pattern' or f['file'].endswith('lex.yy.c'):
+            continue
+        try:
+            res = uninitialised_reads(M, f)
+        except AnalysisBroken:
+            continue        # functions whose control flow the CFG builder refuses (goto) are covered by nothing here
+        nf += 1
+        for v, ev in res:
+            nv += 1
+            Q.violation('%s: %s' % (f['q'], v['name']), '%s is declared without a value (line %d) and is read at line %d on a path that assigns nothing to it (for instance when the loop '
+                        'in between runs zero times): the result depends on what the stack happened to contain' % (v['name'], v['loc'][0], ev.e['loc'][0]),
+                        '%s:%d' % (rel(lib, f['file']), ev.e['loc'][0]), witness={'variable': v['name'], 'read_at_line': ev.e['loc'][0]})
+    Q.ok('definite assignment', '%d function bodies analysed, no read of an unassigned scalar local' % nf if not nv else '%d function bodies analysed' % nf, 'Compiler/src', nontrivial=True)
 
 
 def unwritten_token_rule(rep, M, lib):
